@@ -54,7 +54,7 @@ ALLSELF = '{"labs", "lvar", "lrel"}'
 # lab: bra lab): every program <= 3 items over a small base alphabet, checked and exported like the others
 cfg("PassLoop_Gen_self68k.cfg", "68k", 3, "{1}", "{2}", "{0}", offs="{}", selfk=ALLSELF, tail=GTAIL, spec=GEN,
     head="(M)+(G) 68000/MSP430 class with self-referencing padded statements, every program <= 3 items")
-cfg("PassLoop_Gen_selfabs.cfg", "abs", 3, "{1}", "{2}", "{0, 250}", offs="{}", selfk=ALLSELF, tail=GTAIL, spec=GEN,
+cfg("PassLoop_Gen_selfabs.cfg", "abs", 3, "{1}", "{2}", "{250}", offs="{}", selfk=ALLSELF, tail=GTAIL, spec=GEN,
     head="(M)+(G) 6809/68HC11/6502 class with self-referencing statements, every program <= 3 items")
 cfg("PassLoop_Gen_self86.cfg", "86", 3, "{1}", "{2}", "{0}", offs="{}", selfk=ALLSELF, tail=GTAIL, spec=GEN,
     head="(M)+(G) 8086 class with self-referencing statements, every program <= 3 items")
